@@ -1330,7 +1330,9 @@ pseudo_tcp_socket_shutdown (PseudoTcpSocket *self, PseudoTcpShutdown how)
     } else {
       queue_fin_message (self);
       attempt_send (self, sfFin);
-      set_state (self, PSEUDO_TCP_FIN_WAIT_1);
+      /* Sending may have failed and closed the socket already. */
+      if (priv->state != PSEUDO_TCP_CLOSED)
+        set_state (self, PSEUDO_TCP_FIN_WAIT_1);
     }
     break;
   case PSEUDO_TCP_CLOSE_WAIT:
@@ -1339,7 +1341,9 @@ pseudo_tcp_socket_shutdown (PseudoTcpSocket *self, PseudoTcpShutdown how)
      * the local end of the connection. */
     queue_fin_message (self);
     attempt_send (self, sfFin);
-    set_state (self, PSEUDO_TCP_LAST_ACK);
+    /* Sending may have failed and closed the socket already. */
+    if (priv->state != PSEUDO_TCP_CLOSED)
+      set_state (self, PSEUDO_TCP_LAST_ACK);
     break;
   case PSEUDO_TCP_CLOSING:
   case PSEUDO_TCP_CLOSED:
